@@ -6,10 +6,12 @@ def cubes_access(tier):
         return [dict(lazy="d", op1=o, nops=2, ops2=[0, 1, 2, 3], _w=2) for o in range(7)] + \
                [dict(lazy="d", op1=o, nops=2, ops2=[4, 5, 6], _w=2) for o in (0, 1, 4)] + \
                [dict(lazy="d/s", op1=o, nops=2, ops2=[0, 1, 2], _w=2) for o in (1, 2, 6)] + \
-               [dict(lazy="d", op1=1, nops=1, symshape=True)]
+               [dict(lazy="d", op1=1, nops=1, symshape=True)] + \
+               [dict(lazy="d", op1=6, nops=2, ops2=[0, 6], where="remote", _w=2), dict(lazy="d/s", op1=1, nops=2, ops2=[6], where="remote")]
     out = [dict(lazy=l, op1=o, nops=2, shape=s, _w=2) for l in ("d", "d/s") for o in range(7)
            for s in ([1, 1, 1, 1], [1, 0, 1, 1], [0, 1, 1, 0], [1, 1, 0, 1])]
     out += [dict(lazy="d", op1=o, nops=3, _w=8) for o in range(7)]
+    out += [dict(lazy=l, op1=o, nops=2, where="remote", _w=2) for l in ("d", "d/s") for o in range(7)]
     return out
 
 
